@@ -120,7 +120,8 @@ def run(ctx):
     ctx.pyvc(ast_clone.UNITS, dict((u.name, eqv) for u in ast_clone.UNITS))
     try:
         from contracts import util_scope
-        ctx.pyvc(util_scope.UNITS, {})
+        scm = ("m_scope", lambda v: None, lambda nm: None, 3000)
+        ctx.pyvc(util_scope.UNITS, dict((u.name, scm) for u in util_scope.UNITS))
     except ImportError:
         pass
     # create_wrapper is documented for build scripts: called any number of times in one process, each call must equal a
@@ -136,15 +137,22 @@ def run(ctx):
         "roots (name-based alias closure; same assumptions as C07)",
     ]
     ctx.trusted += [
-        "util.Scope.clone by assumed contract (new scope with the same content and parent; it iterates __dict__); reparent / "
-        "get_parent are verified units (contracts/util_scope.py); FunctionNode.clone by assumed contract (new node, fmtdict/options are clones); a scope is "
-        "abstracted by the signature of its lookup chain (contracts/ast_clone.py)",
+        "util.Scope: every method is a verified unit (contracts/util_scope.py: __init__, __getattr__, __getitem__, __contains__, get, "
+        "setdefault, update, inlocal, delattrs, clone, reparent, get_parent) against the view 'chain of dictionaries, first one "
+        "that has the key'; ASSUMED there: Python's attribute protocol for an instance (getattr = instance dictionary, then "
+        "__getattr__; setattr = store into the instance dictionary; hasattr = getattr does not raise AttributeError), keys are "
+        "not names of attributes of the class Scope and do not start with _Scope__, no subclass, the parent's view is not "
+        "changed by a method of the child (the parent object is outside every modifies clause: frame obligation), iteration "
+        "over a dictionary enumerates every key",
+        "the clone units of contracts/ast_clone.py use Scope.clone / reparent / get_parent through the abstraction 'signature of "
+        "the lookup chain' (same content and parent => same signature), which restates the verified contracts of those "
+        "methods; FunctionNode.clone by assumed contract (new node, fmtdict/options are clones)",
     ]
     ctx.not_covered += [
         "ClassNode.clone outside the loop body (copy.copy, new.fmtdict/new.options clones, new.functions = newfcns)",
         "identity of two whole runs (relation between executions of the whole generator): bounded monitor m_options only",
-        "util.Scope's own lookup semantics (parent fallback) and the per-argument attrs merge; the wiring check is per "
-        "assignment statement (fresh child scope of the container's scope)",
+        "the per-argument attrs merge; the wiring check is per assignment statement (fresh child scope of the container's scope); "
+        "Scope._to_dict / _to_full_dict / trace / __repr__ (JSON dump and debugging only)",
     ]
     # relations of this property on the upstream regression inputs (bounded, never proof)
     rc = ctx.monitor("m_corpus_rel", "psearch", 400, ctx.seed, 16, json.dumps({"rel": ['option', 'block']}))
